@@ -1159,9 +1159,12 @@ func refSetOp(op string, args []spec.V) outcome {
 		}
 		ts[i] = *a.T.E
 	}
-	if op == "symdiff" && len(args) != 2 {
-		return abstain("symmetric difference of other than two sets")
-	}
+	// Symmetric difference of more than two sets: the Description speaks of two
+	// sets, the doc comment says "in any of the given sets but not multiple"
+	// (members of exactly one set), and folding the two-set operation gives
+	// the members of an odd number of sets. The two readings agree whenever
+	// no member occurs in three or more of the sets; only then does the
+	// reference speak (see symdiffAmbiguous below).
 	et, st := unify(ts)
 	if st == uFail {
 		return ood("no common element type")
@@ -1201,6 +1204,22 @@ func refSetOp(op string, args []spec.V) outcome {
 		return abstain("members equal by text only")
 	}
 	in := func(x spec.V, s []spec.V) bool { return memberOf(x, s) != eqNo }
+	if op == "symdiff" && len(args) != 2 {
+		if len(args) < 2 {
+			return abstain("symmetric difference of fewer than two sets")
+		}
+		for _, x := range everything {
+			n := 0
+			for _, s := range sets {
+				if in(x, s) {
+					n++
+				}
+			}
+			if n >= 3 {
+				return abstain("symmetric difference of 3+ sets with a member in three of them: the documented readings differ")
+			}
+		}
+	}
 	res := sets[0]
 	overlap := false
 	for _, s := range sets[1:] {
